@@ -97,16 +97,14 @@ def propFlags (s : PropagatorAttrs OTok Int) (h : Heap OTok) : String :=
     let on := (g.slots.reverse.foldl (fun (m : List (List Int × Bool)) p => (p.1, p.2.val != 0) :: m.filter (fun q => q.1 != p.1)) []).filter (·.2)
     " ".intercalate ((on.map fun p => ".".intercalate (p.1.map toString)).mergeSort (· ≤ ·))
 
-partial def propRun (x : Array Int) (off n : Nat) (s : PropagatorAttrs OTok Int) (h : Heap OTok) (acc : List String) : List String :=
-  if n = 0 then acc.reverse
-  else
+def propRun (x : Array Int) (off : Nat) : Nat → PropagatorAttrs OTok Int → Heap OTok → List String → List String
+  | 0, _, _, acc => acc.reverse
+  | n + 1, s, h, acc =>
     match propCall x off s h with
     | (none, _) => ("RAISE" :: acc).reverse
-    | (some (s', h', t), k) => propRun x (off + k) (n - 1) s' h' ((t ++ ";" ++ propFlags s' h') :: acc)
+    | (some (s', h', t), k) => propRun x (off + k) n s' h' ((t ++ ";" ++ propFlags s' h') :: acc)
 
 /-! ### the loss objects -/
-
-def genericTok : (String → Int) × (Int → OTok) := (litMicro, OTok.leaf)
 
 def lossTokOps : LossObjOps OTok Int :=
   { lit := litMicro, scalar := OTok.leaf, int := fun i => OTok.leaf (i * 1000000), ofBool := fun b => OTok.leaf (if b then 1 else 0),
@@ -124,29 +122,31 @@ def lossTokOps : LossObjOps OTok Int :=
 def lossCallArgs (x : Array Int) (off : Nat) : OTok × OTok × Option Int :=
   (.mk (x.getD (off + 3) 0) [3, 6, 6] [], .mk (x.getD (off + 3) 0 + 1) [3, 6, 6] [], if x.getD (off + 1) 0 != 0 then some (x.getD (off + 2) 0) else none)
 
-partial def mplRun (x : Array Int) (off n : Nat) (s : MultiplaneLossAttrs OTok Int) (h : Heap OTok) (acc : List String) : List String :=
-  if n = 0 then acc.reverse
-  else if x.getD off 0 = 0 then
-    match mplGetTargetsG lossTokOps s h with
-    | none => ("RAISE" :: acc).reverse
-    | some r => mplRun x (off + 1) (n - 1) r.1 r.2.1 ((showLog r.2.2.2 ++ ";V,V,V") :: acc)
-  else
-    let a := lossCallArgs x off
-    match mplCallG lossTokOps s h a.1 a.2.1 a.2.2 with
-    | none => ("RAISE" :: acc).reverse
-    | some r => mplRun x (off + 4) (n - 1) r.1 r.2.1 ((showLog r.2.2.2 ++ ";V") :: acc)
+def mplRun (x : Array Int) (off : Nat) : Nat → MultiplaneLossAttrs OTok Int → Heap OTok → List String → List String
+  | 0, _, _, acc => acc.reverse
+  | n + 1, s, h, acc =>
+    if x.getD off 0 = 0 then
+      match mplGetTargetsG lossTokOps s h with
+      | none => ("RAISE" :: acc).reverse
+      | some r => mplRun x (off + 1) n r.1 r.2.1 ((showLog r.2.2.2 ++ ";V,V,V") :: acc)
+    else
+      let a := lossCallArgs x off
+      match mplCallG lossTokOps s h a.1 a.2.1 a.2.2 with
+      | none => ("RAISE" :: acc).reverse
+      | some r => mplRun x (off + 4) n r.1 r.2.1 ((showLog r.2.2.2 ++ ";V") :: acc)
 
-partial def pmplRun (x : Array Int) (off n : Nat) (s : PerceptualMultiplaneLossAttrs OTok Int) (h : Heap OTok) (acc : List String) : List String :=
-  if n = 0 then acc.reverse
-  else if x.getD off 0 = 0 then
-    match pmplGetTargetsG lossTokOps s h with
-    | none => ("RAISE" :: acc).reverse
-    | some r => pmplRun x (off + 1) (n - 1) r.1 r.2.1 ((showLog r.2.2.2 ++ ";V,V,V") :: acc)
-  else
-    let a := lossCallArgs x off
-    match pmplCallG lossTokOps s h a.1 a.2.1 a.2.2 with
-    | none => ("RAISE" :: acc).reverse
-    | some r => pmplRun x (off + 4) (n - 1) r.1 r.2.1 ((showLog r.2.2.2 ++ ";V") :: acc)
+def pmplRun (x : Array Int) (off : Nat) : Nat → PerceptualMultiplaneLossAttrs OTok Int → Heap OTok → List String → List String
+  | 0, _, _, acc => acc.reverse
+  | n + 1, s, h, acc =>
+    if x.getD off 0 = 0 then
+      match pmplGetTargetsG lossTokOps s h with
+      | none => ("RAISE" :: acc).reverse
+      | some r => pmplRun x (off + 1) n r.1 r.2.1 ((showLog r.2.2.2 ++ ";V,V,V") :: acc)
+    else
+      let a := lossCallArgs x off
+      match pmplCallG lossTokOps s h a.1 a.2.1 a.2.2 with
+      | none => ("RAISE" :: acc).reverse
+      | some r => pmplRun x (off + 4) n r.1 r.2.1 ((showLog r.2.2.2 ++ ";V") :: acc)
 
 def opsGenObjLoss : List (String × Handler) := [
   -- glo_fields class  ->  the field names of the regenerated structure
@@ -183,26 +183,26 @@ def meshTokOps : MeshOps OTok Int :=
     cat := fun l k => .mk (l.foldl (fun a t => a * 41 + t.val) (k + 9)) [] [],
     triangulate := fun s n a => OTok.map1 71 (OTok.mix (OTok.mix s n) a), mirrorLoop := fun r t => (OTok.map1 72 (OTok.mix r t), OTok.map1 73 (OTok.mix r t)) }
 
-partial def meshRun (x : Array Int) (off n : Nat) (s : PlanarMeshAttrs OTok Int) (h : Heap OTok) (acc : List String) : List String :=
-  if n = 0 then acc.reverse
-  else
+def meshRun (x : Array Int) (off : Nat) : Nat → PlanarMeshAttrs OTok Int → Heap OTok → List String → List String
+  | 0, _, _, acc => acc.reverse
+  | n + 1, s, h, acc =>
     let kind := x.getD off 0
     if kind = 0 then
       match meshMirrorG meshTokOps s h (.mk (x.getD (off + 1) 0) [2, 2, 3] []) with
       | none => ("RAISE" :: acc).reverse
-      | some r => meshRun x (off + 2) (n - 1) r.1 r.2.1 ((showLog r.2.2.2 ++ ";V,V") :: acc)
+      | some r => meshRun x (off + 2) n r.1 r.2.1 ((showLog r.2.2.2 ++ ";V,V") :: acc)
     else if kind = 1 then
       match meshGetTrianglesG meshTokOps s h with
       | none => ("RAISE" :: acc).reverse
-      | some r => meshRun x (off + 1) (n - 1) r.1 r.2.1 ((showLog r.2.2.2 ++ ";V") :: acc)
+      | some r => meshRun x (off + 1) n r.1 r.2.1 ((showLog r.2.2.2 ++ ";V") :: acc)
     else if kind = 2 then
       match meshGetSquaresG meshTokOps s h with
       | none => ("RAISE" :: acc).reverse
-      | some r => meshRun x (off + 1) (n - 1) r.1 r.2.1 ((showLog r.2.2.2 ++ ";V") :: acc)
+      | some r => meshRun x (off + 1) n r.1 r.2.1 ((showLog r.2.2.2 ++ ";V") :: acc)
     else      -- an optimiser step: the heights tensor is written in place by the caller
       match s.heights with
       | none => ("RAISE" :: acc).reverse
-      | some l => meshRun x (off + 2) (n - 1) s (h.set l (.mk (x.getD (off + 1) 0) [3, 3, 1] [])) ("-;X" :: acc)
+      | some l => meshRun x (off + 2) n s (h.set l (.mk (x.getD (off + 1) 0) [3, 3, 1] [])) ("-;X" :: acc)
 
 def opsGenObjMesh : List (String × Handler) := [
   -- goa_tables  ->  attributes assigned by __init__ | assigned by optimize | written in place by optimize | handed to the torch optimiser | no stale read
